@@ -166,6 +166,9 @@ class FilesystemRegistry(AbstractRegistry):
         )
 
     def __getitem__(self, item):
+        # keys are file stems of the registry directory itself, not paths
+        if not isinstance(item, six.string_types) or fs.path.basename(item) != item:
+            raise KeyError(item)
         files = ("{}.{}".format(item, extension) for extension in self._extensions)
         for name in files:
             if self.fs.isfile(name):
